@@ -259,6 +259,22 @@ class CArr:
             return N(get(*out))
         return rd
 
+    def same_view(self, other):
+        """syntactically the same affine view (shape and axis maps) on the buffer"""
+        def eq(a, b):
+            if isinstance(a, (tuple, list)) and isinstance(b, (tuple, list)):
+                return len(a) == len(b) and all(eq(x, y) for x, y in zip(a, b))
+            a, b = (N(a) if T.is_scalar(a) else a), (N(b) if T.is_scalar(b) else b)
+            if is_z3(a) and is_z3(b):
+                return a.eq(b)
+            if is_z3(a) or is_z3(b):
+                return False
+            return a == b
+        try:
+            return eq(self.shape, other.shape) and eq(self.axes, other.axes)
+        except Exception:
+            return False
+
     def snapshot(self):
         """A fresh array holding the current content of this view."""
         return CArr.from_fn(self.reader(), self.shape, self.dtype)
